@@ -84,6 +84,8 @@ def run_deductive(P, tier, R):
         L = contract.LEMMAS[ln]
         n0 = len(ex.obls)
         ex.cur_func = "lemma:" + ln
+        ex.theories = set(getattr(L, "theories", ()))
+        ex.extra_axioms = []
         saved = ex.force_inline
         ex.force_inline = ex.force_inline | L.inline_callees
         try:
@@ -99,14 +101,12 @@ def run_deductive(P, tier, R):
             ex.force_inline = saved
     R.functions = list(per_func.values())
     R.assumptions |= ex.assumptions
-    axioms = sym.base_axioms() + list(getattr(ex, "extra_axioms", []))
-    lite = sym.base_axioms(heavy=False) + list(getattr(ex, "extra_axioms", []))
     t0 = time.time()
-    res = solve.discharge(ex.obls, axioms, z3_ms=z3_ms, cvc5_s=cvc5_s, axioms_lite=lite)
+    res = solve.discharge(ex.obls, z3_ms=z3_ms, cvc5_s=cvc5_s)
     # second chance for anything left open: 6x budget (keeps solver noise from becoming an alarm)
     retry = [i for i, r in enumerate(res) if r["verdict"] != "unsat"]
     if retry and len(retry) <= 40:
-        res2 = solve.discharge([ex.obls[i] for i in retry], axioms, z3_ms=z3_ms * 3, cvc5_s=cvc5_s * 2, axioms_lite=lite)
+        res2 = solve.discharge([ex.obls[i] for i in retry], z3_ms=z3_ms * 3, cvc5_s=cvc5_s * 2)
         for i, r in zip(retry, res2):
             if r["verdict"] == "unsat":
                 res[i] = r
